@@ -1070,7 +1070,56 @@ class BuiltinsMixin:
         raise Unsupported("rsplit on symbolic string")
 
     def m_text_format(self, s, *a, **k):
-        return SOpaque("format")
+        """str.format on a concrete template with plain fields ({} / {0} / {name}, no conversion, no format spec)"""
+        if not isinstance(s, str):
+            return SOpaque("format")
+        import string
+
+        out = []
+        auto = 0
+        try:
+            fields = list(string.Formatter().parse(s))
+        except ValueError:
+            return SOpaque("format")
+        for lit, name, spec, conv in fields:
+            if lit:
+                out.append(lit)
+            if name is None:
+                continue
+            if spec or conv:
+                return SOpaque("format")
+            if name == "":
+                if auto >= len(a):
+                    raise RaiseSig(SExc(exc_class("IndexError")), self.lineno)
+                val = a[auto]
+                auto += 1
+            elif name.isdigit():
+                if int(name) >= len(a):
+                    raise RaiseSig(SExc(exc_class("IndexError")), self.lineno)
+                val = a[int(name)]
+            elif name in k:
+                val = k[name]
+            else:
+                return SOpaque("format")
+            val = self.resolve(val)
+            if isinstance(val, str):
+                out.append(val)
+            elif isinstance(val, SStr) and val.kind == "str":
+                out.append(val)
+            elif isinstance(val, SDec):
+                out.append(SStr(self.to_z3(val), "str"))
+            elif isinstance(val, bool) or val is None:
+                out.append(str(val))
+            elif isinstance(val, int):
+                out.append(str(val))
+            elif isinstance(val, SInt):
+                out.append(self.int_to_str(val))
+            else:
+                return SOpaque("format")
+        if all(isinstance(x, str) for x in out):
+            return "".join(out)
+        e = [self.to_z3(x) for x in out]
+        return self.wrap_str(z3.Concat(*e) if len(e) > 1 else e[0], "str")
 
     def m_text_lower(self, s):
         if isinstance(s, (str, bytes)):
